@@ -174,7 +174,31 @@ def r2_ready_wake_agreement(ctx):
         ctx.check(op == 'gt', 'sleep-pending-table', 'Sleep::poll returns Pending iff deadline > now', fp.where(b), 'deadline %s now' % op)
     # bump: closures return slot.time <= cur, cur = now()
     atoms = _closure_ret_atoms(P, fb)
-    ctx.floor('slot predicates in TimerQueue::bump', len(atoms), 1)
+    inline = []
+    if not atoms:
+        # the predicate written in place: the pop of a pending slot is guarded by a comparison of the front slot's time
+        seen = set()
+        for path, outcome, decs in fn_paths(ctx, fb):
+            last = None
+            for e in path_stream(fb, path, decs):
+                if e[0] == 'atom':
+                    a = e[1]
+                    if a and a[0] == 'cmp' and any(x[0] == 'field' and x[2] == 'time' for x in walk(a)):
+                        last = a
+                elif e[0] == 'c' and e[1].name.split('::')[-1] in ('pop_front', 'pop_first', 'remove') and ('VecDeque' in e[1].name or 'BTreeMap' in e[1].name):
+                    k = (e[1].b, repr(last))
+                    if k not in seen:
+                        seen.add(k)
+                        inline.append((fb, last if last is not None else ('cmp', 'none', ('unknown',), ('unknown',))))
+                    last = None
+    ctx.floor('slot predicates in TimerQueue::bump', len(atoms) + len(inline), 1)
+    for g, a in inline:
+        l, r, op = a[2], a[3], a[1]
+        if any(x[0] == 'field' and x[2] == 'time' for x in walk(r)) and not any(x[0] == 'field' and x[2] == 'time' for x in walk(l)):
+            l, r, op = r, l, SWAP[op]
+        lp, rp = peel_c(l), peel_c(r)
+        ctx.check(lp[0] == 'field' and lp[2] == 'time' and op == 'le' and rp[0] == 'call' and rp[1] == NOW, 'bump-table:inline',
+                  'TimerQueue::bump takes a slot iff slot.time <= now (same predicate as Sleep::poll)', fb.where(), '%s %s %s' % (show_c(l)[:80], op, show_c(r)[:80]))
     for g, a in atoms:
         l, r = a[2], a[3]
         op = a[1]
@@ -217,6 +241,10 @@ def r3_wakeup_scheduling(ctx, rule='C05.R3'):
             continue
         effs = path_effects(f, path)
         writes = [e for e in effs if e[0] == 'w' and e[2] == 'next_wakeup']
+        for e in effs:
+            # `mem::replace(&mut driver.next_wakeup, t)` stores t as well
+            if e[0] == 'c' and e[1].name == 'std::mem::replace' and len(e[2]) == 2 and peel(e[2][0])[0] == 'field' and peel(e[2][0])[2] == 'next_wakeup':
+                writes.append(('w', 'set', 'next_wakeup', None, e[2][1], e[1].b, 'T'))
         adds = [e for e in effs if e[0] == 'c' and e[1].callee == 'des::runtime::event::EventSink::add'
                 and any(x[0] == 'agg' and 'AsyncWakeupEvent' in x[1] for x in walk(e[2][1]))]
         if not writes and not adds:
@@ -230,7 +258,7 @@ def r3_wakeup_scheduling(ctx, rule='C05.R3'):
                 v0 = peel(v0[2][0])     # the recorded wake-up kept as Option<SimTime> (None instead of the MAX sentinel)
             v = canon(v0)
             t = canon(peel(adds[0][2][2]))
-            from_next = any(x[0] == 'call' and x[1] == D + 'Driver::next' for x in walk(v))
+            from_next = any(x[0] == 'call' and x[1] in (D + 'Driver::next', TQ + '::next') for x in walk(v))
             ok = v == t and from_next
             detail.update({'stored': show_c(v), 'scheduled_at': show_c(t)})
             atoms = [a for _, a in path_atoms(f, path, decs)]
@@ -409,7 +437,15 @@ def r5_registration(ctx, rule='C05.R5'):
         rm = fd.calls_to(TS + '::remove')
         if ctx.floor('TimerSlot::remove in handle drop', len(rm), 1):
             atoms = [a for _, a in fd.guard_atoms(rm[0].b)]
-            ok = any(a[0] == 'bool' and a[1][0] == 'field' and a[1][2] == 'resolved' and a[2] is False for a in atoms)
+            flag = [a for a in atoms if a[0] == 'bool' and a[1][0] == 'field' and a[1][2] == 'resolved' and a[2] is False]
+            upg = [a for a in atoms if (option_state(a) or ('', None))[0] == 'some' and any(x[0] == 'call' and x[1].endswith('Weak::upgrade') for x in walk(option_state(a)[1]))]
+            ok = bool(flag)
+            if not flag and len(upg) == len(atoms):
+                # no flag: a resolved handle is one that was detached from its slot (resolve() replaces the weak link by a dangling one)
+                fr = ctx.P.fns.get(TH + '::resolve')
+                ws = fr.writes_to_field('handle') if fr is not None else []
+                ok = bool(ws) and all(peel(fr.expr_rvalue(w[2]['r'], w[0], w[1]))[0] == 'call' and peel(fr.expr_rvalue(w[2]['r'], w[0], w[1]))[1].endswith('Weak::new')
+                                      and fr.postdominates_entry(w[0]) for w in ws)
             ctx.check(ok, 'drop-removes-unless-resolved', "dropping an unresolved handle removes its entry (a dropped sleep leaves no stale waker)", rm[0].where(), [show_atom(a) for a in atoms])
     # typestate: `handle` is Some only while a registration for the CURRENT deadline exists; whoever changes the deadline releases it
     n_dw = 0
